@@ -38,11 +38,12 @@ VARIANTS = [
     ("graph --task", ["graph", "--task"]),
     ("dump --chrome", ["dump", "--chrome"]),
     ("replay -f +task..", ["replay", "-f", "+tid,task,time,elapsed,delta,addr,module"]),
+    ("info --task", ["info", "--task"]),
     ("dump --flame-graph", ["dump", "--flame-graph"]),
+    ("replay --srcline", ["replay", "--srcline"]),
     ("dump --graphviz", ["dump", "--graphviz"]),
     ("replay --no-merge", ["replay", "--no-merge"]),
     ("report -s self,call", ["report", "-s", "self,call"]),
-    ("info --task", ["info", "--task"]),
     ("info --symbols", ["info", "--symbols"]),
     ("report --diff", ["report", "--diff", "d"]),
     ("dump --mermaid", ["dump", "--mermaid"]),
@@ -126,8 +127,8 @@ def gen_vals(rng, spec, small, minstr=0):
 
 
 def gen_case(rng, nrec, small=True, nested=False, minstr=0):
-    """minstr: the end-to-end directories use strings of >= 3 characters: `uftrace dump` (pr_args) compares 4 bytes of a
-    (len+1)-byte copy with the NULL marker, an over-read that happens on COMPLETE files too and is not a truncation matter"""
+    """minstr: lower bound for string lengths (the end-to-end directories used >= 3 while `uftrace dump` over-read shorter
+    strings on complete files too; repaired by 5b06e93, they use every length now)"""
     nfun = rng.randrange(1, 5)
     names = ["main"] + ["f%d" % i for i in range(1, nfun + 1)]
     syms = [(0x1000 + 0x100 * i, 0x80, "T", n) for i, n in enumerate(names)]
@@ -233,6 +234,39 @@ def write_dir(case, d):
     b = bytearray(open(p, "rb").read())
     mask = struct.unpack_from("<Q", b, 24)[0] | datadir.INFO_RECORD_DATE | datadir.INFO_PATTERN_TYPE | datadir.INFO_VERSION
     struct.pack_into("<Q", b, 24, mask)
+    if case.get("extra"):
+        # the other files a recording leaves in the directory (end-to-end directories only): perf events of one cpu
+        # (COMM, context switches, FORK/EXIT of the child), the user-event table, external data, the options file
+        # and the debug-info file of the executable
+        feat = struct.unpack_from("<Q", b, 16)[0] | datadir.FEAT_PERF_EVENT
+        struct.pack_into("<Q", b, 16, feat)
+        t0 = case["recs"][0]["t"]
+
+        def sid(tid, t):
+            return struct.pack("<IIQ", tid if tid != 102 else 100, tid, t)
+
+        def ev(ty, misc, body):
+            return struct.pack("<IHH", ty, misc, 8 + len(body)) + body
+        perf = ev(3, 0x2000, struct.pack("<II", 100, 100) + b"prog\0\0\0\0\0\0\0\0\0\0\0\0" + sid(100, t0 + 1))
+        perf += ev(14, 0x2000, sid(100, t0 + 40)) + ev(14, 0, sid(100, t0 + 90))
+        perf += ev(7, 0, struct.pack("<IIIIQ", 101, 100, 101, 100, t0 + 120) + sid(100, t0 + 120))
+        perf += ev(14, 0x6000, sid(102, t0 + 150)) + ev(14, 0, sid(102, t0 + 170))
+        perf += ev(3, 0, struct.pack("<II", 101, 101) + b"child-name\0\0\0\0\0\0" + sid(101, t0 + 200))
+        perf += ev(4, 0, struct.pack("<IIIIQ", 101, 100, 101, 100, t0 + 5000) + sid(101, t0 + 5000))
+        open(os.path.join(d, "perf-cpu0.dat"), "wb").write(perf)
+        open(os.path.join(d, "events.txt"), "wb").write(b"EVENT: 1000000 uftrace:event\nEVENT: 1000001 myprov:second-event\n")
+        open(os.path.join(d, "extern.dat"), "wb").write(
+            ("# external data\n%d.%09d first message\n\n%d.%09d second one with words\n"
+             % ((t0 + 60) // 10**9, (t0 + 60) % 10**9, (t0 + 300) // 10**9, (t0 + 300) % 10**9)).encode())
+        open(os.path.join(d, "default.opts"), "wb").write(b"--no-libcall -D 64\n")
+        syms = case["syms"]
+        dbg = b"# path name: /fake/prog\n"
+        for i, (a, _, _, nm) in enumerate(syms):
+            dbg += ("F: %x %s\nL: %d /src/prog.c\n" % (a, nm, 10 + 7 * i)).encode()
+            if i == 2:
+                dbg += b"A: @arg1/i32\nR: @retval/i64\n"
+        dbg += b"E: enum color {RED=0,GREEN=1,BLUE=2,}\n"
+        open(os.path.join(d, "prog.dbg"), "wb").write(dbg)
     open(p, "wb").write(bytes(b) + INFO_TAIL)
     return open(os.path.join(d, "100.dat"), "rb").read()
 
@@ -470,7 +504,7 @@ def viol(ctx, kind, what, replay, found=True, cap=3):
 def stream_tie(ctx, objdir, harness):
     rng = ctx.rng
     todo = []
-    ncase = ctx.n(10, 60)
+    ncase = ctx.n(8, 36)
     for i in range(ncase):
         small = i % 3 != 2
         case = gen_case(rng, rng.randrange(3, 9) if small else rng.randrange(6, 14), small=small)
@@ -545,6 +579,129 @@ def classify_cut(spans, n):
     return ["at:end-of-file"]
 
 
+
+# ---------------------------------------------------------------------------------- task list reader (in-process)
+TT_PRE = """From Coq Require Import NArith List Bool.
+Import ListNotations.
+Require Import UV.C12.Model UV.C12.TextModel.
+"""
+
+
+def tt_render(e):
+    """mirror of TextModel.render (the Coq side reads the same line bytes back and compares entries)"""
+    def st(t):
+        return b"%d.%09d" % (t // 10**9, t % 10**9)
+    if e[0] == "T":
+        return b"TASK timestamp=%s tid=%d pid=%d" % (st(e[1]), e[2], e[3])
+    if e[0] == "F":
+        return b"FORK timestamp=%s pid=%d ppid=%d" % (st(e[1]), e[2], e[3])
+    return b'SESS timestamp=%s pid=%d sid=%s exename="%s"' % (st(e[1]), e[2], e[3], e[4])
+
+
+def gen_tasktxt(rng):
+    times = sorted(rng.choice([0, 1, 999999999, 10**9, 10**9 + 1, rng.randrange(10**13), rng.randrange(10**6)]) for _ in range(8))
+    pid0 = rng.choice([1, 9, 10, 100, 4194303, rng.randrange(1, 99999)])
+    lines = [tt_render(("S", times[0], pid0, b"%016x" % rng.getrandbits(64),
+                        rng.choice([b"/fake/prog", b"/a dir/with space/p", b"/x/exename=y", b"p", b"/q/" + b"n" * 40])))]
+    tids = [pid0]
+    lines.append(tt_render(("T", times[1], pid0, pid0)))
+    for i in range(rng.randrange(1, 5)):
+        tid = rng.choice([x for x in (pid0 + i + 1, rng.randrange(1, 10**6), 10 ** rng.randrange(1, 7)) if x not in tids] or [pid0 + 100 + i])
+        tids.append(tid)
+        if rng.random() < 0.5:
+            lines.append(tt_render(("F", times[2 + i], tid, rng.choice(tids[:-1]))))
+        else:
+            lines.append(tt_render(("T", times[2 + i], tid, pid0)))
+        if rng.random() < 0.2:
+            lines.append(rng.choice([b"# a comment", b"", b"TAS", b"LOST 12", b"task timestamp=1.0 tid=1 pid=1"]))
+    return lines
+
+
+def tasktxt_tie(ctx, objdir):
+    exe = os.path.join(ctx.scratch, "c12_tasktxt")
+    rng = ctx.rng
+    cases = []
+    for i in range(ctx.n(3, 24)):
+        lines = gen_tasktxt(rng)
+        full = b"".join(l + b"\n" for l in lines)
+        root = os.path.join(ctx.scratch, "tt%d" % i)
+        d = os.path.join(root, "d")
+        os.makedirs(d)
+        fullp = os.path.join(root, "full")
+        open(fullp, "wb").write(full)
+        rc, out, err = sh([exe, d, fullp], input="".join("%d\n" % n for n in range(len(full) + 1)), env=SAN_ENV, timeout=600)
+        if rc != 0:
+            raise RuntimeError("c12_tasktxt failed rc=%d: %s" % (rc, err[-500:]))
+        res, cur = {}, None
+        for line in out.splitlines():
+            k = line.split()
+            if k[0] == "CUT":
+                cur = {"ret": None, "S": [], "T": []}
+            elif k[0] == "RET":
+                cur["ret"] = int(k[1])
+            elif k[0] == "S":
+                cur["S"].append((int(k[1]), int(k[2]), b"" if k[3] == "-" else bytes.fromhex(k[3]), b"" if k[4] == "-" else bytes.fromhex(k[4])))
+            elif k[0] == "T":
+                cur["T"].append((int(k[1]), int(k[2]), int(k[3]), int(k[4])))
+            elif k[0] == "STATUS":
+                n = int(k[1])
+                ep = "%s.stderr.%d" % (d, n)
+                e = open(ep, errors="replace").read() if os.path.exists(ep) else ""
+                cur["flags"] = (["sanitizer"] if ("Sanitizer" in e or "runtime error:" in e) else []) + \
+                               (["status %s signal %s" % (k[2], k[3])] if (k[2] != "0" or k[3] != "0") else [])
+                cur["stderr"] = e[-800:]
+                res[n] = cur
+        shutil.rmtree(root, ignore_errors=True)
+        cases.append((lines, full, res))
+    case_terms, cut_terms, flat = [], [], []
+    for ci, (lines, full, res) in enumerate(cases):
+        case_terms.append("[%s]" % ";\n  ".join(coq_bytes(l) for l in lines))
+        for n in sorted(res):
+            r = res[n]
+            tag = ("at-line-boundary" if full[:n].endswith(b"\n") or n == 0 else
+                   "in-last-number" if re.search(rb"(pid|ppid)=\d+$", full[:n].rsplit(b"\n", 1)[-1]) else
+                   "in-exename" if b'exename="' in full[:n].rsplit(b"\n", 1)[-1] else "mid-line")
+            ctx.case(key=("tasktxt", full.hex()[:48], n), nontrivial=n > 0, tags=["tasktxt:" + tag], size=n)
+            if r["flags"] or r["ret"] is None:
+                viol(ctx, "tasktxt-crash", "read_task_txt_file crashed / tripped a sanitizer on a task.txt cut at byte %d (%s)"
+                     % (n, "; ".join(r["flags"])), {"mode": "tasktxt", "lines": [l.hex() for l in lines], "cut": n, "stderr": r["stderr"]}, True)
+                continue
+            tasks = "; ".join("(%d, %d, %d, %d)%%N" % t for t in sorted(r["T"]))
+            sess = "; ".join("(%d%%N, %d%%N, %s, %s)" % (t, p, coq_bytes(a), coq_bytes(b)) for t, p, a, b in sorted(r["S"]))
+            cut_terms.append("(%d, {| tt_n := %d; tt_ok := %s; tt_tasks := [%s]; tt_sess := [%s] |})"
+                             % (ci, n, "true" if r["ret"] == 0 else "false", tasks, sess))
+            flat.append((ci, n))
+    defs = ("Definition cases : list (list bytes) := [\n%s\n].\nDefinition cuts : list (nat * ttcut) := [\n%s\n].\n"
+            "Definition lines_of_case (ci : nat) : list bytes := nth ci cases [].\n"
+            % (";\n".join(case_terms), ";\n".join(cut_terms)))
+    r = coq.run_cases(ctx, "tasktxt", TT_PRE, defs, [
+        ("wf", "bad_indices (forallb no_nl) cases 0"),
+        ("mismatch", "bad_indices (fun p : nat * ttcut => tt_agrees true (text_of (lines_of_case (fst p))) (snd p)) cuts 0"),
+        ("violations", "bad_indices (fun p : nat * ttcut => tt_ok_cut (lines_of_case (fst p)) (snd p)) cuts 0"),
+    ])
+    if r is None:
+        return
+    res_ = {k: coq.parse_nat_list(v) for k, v in r.items()}
+    if res_["wf"]:
+        ctx.broken("C12 task.txt generator produced a line with a newline inside")
+    ctx.extra["tasktxt_cuts"] = len(flat)
+
+    def rep(i):
+        ci, n = flat[i]
+        lines, full, rs = cases[ci]
+        return {"mode": "tasktxt", "lines": [l.hex() for l in lines], "cut": n,
+                "impl": {"ret": rs[n]["ret"], "tasks": rs[n]["T"], "sessions": [(t, p, a.hex(), b.hex()) for t, p, a, b in rs[n]["S"]]}}
+    for i in res_["violations"]:
+        viol(ctx, "tasktxt-checker", "C12 violated by the task list reader: on a task.txt cut at byte %d it builds tasks / sessions "
+             "other than those of the complete lines" % flat[i][1], rep(i), True)
+    if res_["mismatch"] and not res_["violations"]:
+        viol(ctx, "tasktxt-mismatch", "model and implementation of read_task_txt_file disagree on %d cut(s); the checker accepts "
+             "the implementation on every explored cut" % len(res_["mismatch"]),
+             dict(rep(res_["mismatch"][0]), correspondence="C12.TextModel.read_task_txt true vs utils/data-file.c read_task_txt_file"),
+             False, cap=1)
+    ctx.extra["disagreements_checked"] = ctx.extra.get("disagreements_checked", 0) + len(res_["mismatch"])
+
+
 # ---------------------------------------------------------------------------------- end-to-end
 def canon_out(s):
     s = re.sub(r"# recorded on.*", "# recorded on X", s)
@@ -554,9 +711,11 @@ def canon_out(s):
 
 def benign_ubsan(err):
     """UBSan reports other than `null pointer passed as argument N, which is declared to never be null`
-    (bsearch/qsort/memcpy on an empty table: no access happens)"""
+    (bsearch/qsort/memcpy on an empty table) and a zero-length variable length array (cmds/graph.c save_backtrace_addr
+    with an empty stack returns before using it): no access happens"""
     lines = [l for l in err.splitlines() if "runtime error:" in l]
-    return all("null pointer passed as argument" in l for l in lines)
+    return all("null pointer passed as argument" in l or "variable length array bound evaluates to non-positive value 0" in l
+               for l in lines)
 
 
 def run_cmds(uft, root, files, cmds=None, second=None):
@@ -590,6 +749,15 @@ def run_cmds(uft, root, files, cmds=None, second=None):
     return res
 
 
+def is_task(fname):
+    """<tid>.dat"""
+    return re.match(r"^\d+\.dat$", fname) is not None
+
+
+def is_binary(fname):
+    return is_task(fname) or fname.startswith("perf-cpu")
+
+
 def text_lines(content, fname):
     """(prefix, [lines with their newline]) of a text file (info: the 40-byte binary header is the prefix)"""
     pre, body = (content[:40], content[40:]) if fname == "info" else (b"", content)
@@ -599,18 +767,18 @@ def text_lines(content, fname):
 def e2e(ctx, objdir):
     uft = os.path.join(objdir, "uftrace")
     rng = ctx.rng
-    ndirs = ctx.n(1, 2)
-    nvar = ctx.n(10, len(VARIANTS))
-    variants = [c for c, _ in VARIANTS[:nvar]] + [c for c, _ in FILTERS[:ctx.n(6, len(FILTERS))]]
+    ndirs = ctx.n(1, 1)
+    nvar = ctx.n(8, len(VARIANTS))
+    variants = [c for c, _ in VARIANTS[:nvar]] + [c for c, _ in FILTERS[:ctx.n(5, len(FILTERS))]]
     allcmds = CMDS + variants
     for di in range(ndirs):
-        case = gen_case(rng, ctx.n(10, 16), small=True, nested=True, minstr=3)
+        case = gen_case(rng, ctx.n(9, 16), small=True, nested=True)
         root = os.path.join(ctx.scratch, "e2e%d" % di)
         os.makedirs(root)
         write_dir(case, os.path.join(root, "src"))
         files = {n: open(os.path.join(root, "src", n), "rb").read() for n in sorted(os.listdir(os.path.join(root, "src")))}
         full = files["100.dat"]
-        dats = sorted(f for f in files if f.endswith(".dat"))
+        dats = sorted(f for f in files if is_task(f))
         # the model decides, for every cut of the main task file, the length of the copy cut at the last whole record
         defs = ("Definition envl : list (N * N * (list aspec * list aspec)) := %s.\nDefinition rs : list rec := [%s].\n" % (coq_envl(case), ";\n ".join(coq_rec(r) for r in case["recs"])))
         r = coq.run_cases(ctx, "e2e%d" % di, PRE, defs, [
@@ -640,26 +808,48 @@ def e2e(ctx, objdir):
             return max(k, 40) if fname == "info" else k
 
         def unterminated(fname, n):
-            if fname.endswith(".dat") or (fname == "info" and n <= 40):
+            if is_binary(fname) or (fname == "info" and n <= 40):
                 return False
             return line_start(fname, n) != n
 
         # ---- jobs: (file, mode, n): mode "cut" (first n bytes), "missing", "drop" (line n removed, the rest kept)
         jobs = []
         for fname, content in files.items():
-            if fname == "100.dat" or (ctx.thorough() and len(content) <= 2000):
+            if ctx.thorough() and len(content) <= 2000:
                 cuts = list(range(len(content) + 1))
-            elif fname.endswith(".dat"):
+            elif fname == "100.dat":
+                # quick: every record / header / argument-piece boundary +-2, at least two cuts inside every piece (so
+                # every string body), every 4th byte of the rest (the in-process tie reads every cut of such files)
+                cs = {0, 1, len(content)} | set(range(0, len(content) + 1, 4))
+                for off, he, pe, end, pieces in spans:
+                    lo = he
+                    for b in [off, he, pe, end] + [q[0] for q in pieces]:
+                        cs |= {x for x in range(b - 2, b + 3) if 0 <= x <= len(content)}
+                    for b, _ in pieces:
+                        cs |= {(lo + b) // 2, lo + 1}
+                        lo = b
+                cuts = sorted(cs)
+            elif fname.startswith("perf-cpu"):
+                # quick: every event boundary and header end +-1, every 4th byte
+                cs, off = {0, len(content)} | set(range(0, len(content) + 1, 4)), 0
+                while off + 8 <= len(content):
+                    size = struct.unpack_from("<H", content, off + 6)[0]
+                    cs |= {x for b in (off, off + 8, off + size) for x in (b - 1, b, b + 1) if 0 <= x <= len(content)}
+                    off += max(size, 8)
+                cuts = sorted(cs)
+            elif is_task(fname):
                 # the payload-free files of the other tasks (quick): record boundaries +-1 and every 5th byte
                 cuts = sorted(set(x for b in range(0, len(content) + 1, 16) for x in (b - 1, b, b + 1) if 0 <= x <= len(content))
                               | set(range(0, len(content) + 1, 5)))
             else:
                 # quick tier, text files: every position next to a token separator (all line boundaries +-1, after
-                # `:` `=` blank and quote) and every 7th byte of the rest; the 40-byte binary header of info completely
-                cs = {0, len(content)} | set(range(0, len(content) + 1, 7))
+                # `:` `=` blank and quote) and every 11th byte of the rest; the 40-byte binary header of info completely
+                cs = {0, len(content)} | set(range(0, len(content) + 1, 11))
                 for i, ch in enumerate(content):
-                    if ch in b":= \n\"" or (fname == "info" and i < 41):
+                    if ch in b"\n":
                         cs |= {i, i + 1, min(i + 2, len(content))}
+                    elif ch in b":=\"" or (ch in b" " and fname in ("task.txt", "info")) or (fname == "info" and i < 41):
+                        cs |= {i + 1}
                 if len(content) > 2000:
                     cs = set(x for x in cs if x < 400 or x > len(content) - 400) | set(rng.randrange(len(content) + 1) for _ in range(150))
                 cuts = sorted(cs)
@@ -677,11 +867,23 @@ def e2e(ctx, objdir):
             if ctx.thorough() or mode != "cut":
                 return True
             content = files[fname]
-            if fname.endswith(".dat"):
+            if fname.startswith("perf-cpu"):
+                return n % 8 == 0
+            if is_task(fname):
                 tags = classify_cut(spans, n) if fname == "100.dat" else (["at:record-boundary"] if n % 16 == 0 else [])
                 return n == len(content) or any(t.startswith("at:") for t in tags) or n % 16 == 8
             near = [line_start(fname, n), line_start(fname, min(n + 1, len(content)))]
             return n in (0, len(content)) or any(abs(n - k) <= 1 for k in near) or (fname == "info" and n <= 41 and n % 8 == 0) or n % 25 == 0
+
+        def exact_damage(job):
+            """the cut is exactly at a line boundary (text) or at a record boundary / piece boundary (task data)"""
+            fname, mode, n = job
+            if fname.startswith("perf-cpu"):
+                return False
+            if is_task(fname):
+                tags = classify_cut(spans, n) if fname == "100.dat" else (["at:record-boundary"] if n % 16 == 0 else [])
+                return any(t.startswith("at:") for t in tags)
+            return line_start(fname, n) == n
 
         def content_of(job):
             fname, mode, n = job
@@ -702,8 +904,15 @@ def e2e(ctx, objdir):
                 return job, None
             wv = with_variants(job)
             cmds = allcmds if wv else CMDS
-            if job[0] == "info" and not wv:
-                cmds = CMDS + ["dump --flame-graph"]      # reads info.elapsed_time: on every cut of info
+            if wv and job[1] == "cut" and 0 < job[2] < len(files[job[0]]) and not exact_damage(job):
+                # next to (not at) whole-line / whole-record damage and on the other cuts that get variants (quick: a
+                # sample, thorough: all) one third of the variants runs, rotating with the cut position
+                cmds = CMDS + [c for i, c in enumerate(variants) if i % 3 == job[2] % 3]
+            if (not ctx.thorough() and not wv and job[1] == "cut" and job[0] not in ("info", "task.txt", "default.opts")
+                    and not is_task(job[0])):
+                cmds = [c for c in cmds if c != "info"]     # quick: `uftrace info` opens info, task.txt and the task files only
+            if job[0] == "info" and "dump --flame-graph" not in cmds:
+                cmds = cmds + ["dump --flame-graph"]      # reads info.elapsed_time: on every cut of info
             jd = os.path.join(root, "j-%s-%s-%d" % (job[0].replace("/", "_"), job[1], job[2]))
             r_ = run_cmds(uft, jd, content_of(job), cmds)
             if wv:
@@ -712,7 +921,7 @@ def e2e(ctx, objdir):
                 hung.append(job)
             return job, r_
 
-        canon_needed = sorted(set((f, whole(f, n)) for f, m, n in jobs if m == "cut" and f.endswith(".dat") and n > 0 and whole(f, n) != n)
+        canon_needed = sorted(set((f, whole(f, n)) for f, m, n in jobs if m == "cut" and is_task(f) and n > 0 and whole(f, n) != n)
                               | {(f, 1) for f in dats})
 
         def run_canon(key):
@@ -727,7 +936,8 @@ def e2e(ctx, objdir):
             fname, n, nl = key
             fs = dict(files)
             fs[fname] = files[fname][:n] + (b"\n" if nl else b"")
-            return key, run_cmds(uft, os.path.join(root, "t-%s-%d-%d" % (fname.replace("/", "_"), n, nl)), fs)
+            return key, run_cmds(uft, os.path.join(root, "t-%s-%d-%d" % (fname.replace("/", "_"), n, nl)), fs,
+                                 allcmds if fname == "task.txt" else None)
 
         ctx.log("e2e: %d jobs, %d whole-record copies, %d complete-line copies" % (len(jobs), len(canon_needed), len(text_canon_needed)))
         with ThreadPoolExecutor(16) as ex:
@@ -741,7 +951,7 @@ def e2e(ctx, objdir):
             for (fname, mode, n), res in results:
                 if res is not None and mode == "cut" and unterminated(fname, n):
                     ref = tcanon[(fname, line_start(fname, n), 0)]
-                    if any(res[c][0] == 0 and (res[c][0], res[c][1]) != (ref[c][0], ref[c][1]) for c in CMDS):
+                    if any(res[c][0] == 0 and (res[c][0], res[c][1]) != (ref[c][0], ref[c][1]) for c in CMDS if c in res):
                         need_nl.append((fname, n, 1))
             tnl = dict(ex.map(run_text_variant, need_nl))
         partial_accepted = 0
@@ -749,7 +959,7 @@ def e2e(ctx, objdir):
         for (fname, mode, n), res in results:
             if res is None:
                 continue
-            kind = "dat" if fname.endswith(".dat") else "sym" if fname.endswith(".sym") else "map" if fname.endswith(".map") else fname
+            kind = "dat" if is_task(fname) else "perf" if fname.startswith("perf-cpu") else "sym" if fname.endswith(".sym") else "map" if fname.endswith(".map") else fname
             tags = ["e2e:file=" + kind]
             how = {"cut": "cut at byte %d" % n, "missing": "missing", "drop": "without its line %d" % (n + 1)}[mode]
             if mode == "missing":
@@ -760,7 +970,9 @@ def e2e(ctx, objdir):
                                                    ls[n].split(b":")[0].decode(errors="replace")))
             elif fname == "100.dat":
                 tags += ["e2e:" + t for t in classify_cut(spans, n)]
-            elif fname.endswith(".dat"):
+            elif fname.startswith("perf-cpu"):
+                tags.append("e2e:perf:" + ("in:8-byte-event-header" if n % 8 and n < 8 else "cut"))
+            elif is_task(fname):
                 tags.append("e2e:other-task:" + ("at:record-boundary" if n % 16 == 0 else "in:16-byte-header"))
             else:
                 body = files[fname][:n][40:] if fname == "info" else files[fname][:n]
@@ -775,7 +987,7 @@ def e2e(ctx, objdir):
                 else:
                     tags.append("e2e:mid-line")
             if len(res) > len(CMDS) + 1:
-                tags.append("e2e:with-option-variants")
+                tags.append("e2e:with-option-variants" if len(res) > len(CMDS) + 10 else "e2e:with-a-third-of-the-variants")
             ctx.case(key=("e2e", di, fname, mode, n), nontrivial=(mode != "cut" or n > 0), tags=tags, size=max(n, 0))
             for c in res:
                 nruns += 1
@@ -797,7 +1009,7 @@ def e2e(ctx, objdir):
                     continue
                 if mode != "cut" or c == DIFF_DAMAGED[0]:
                     continue
-                if fname.endswith(".dat") and n > 0 and whole(fname, n) != n:
+                if is_task(fname) and n > 0 and whole(fname, n) != n:
                     wl = whole(fname, n)
                     ref = canon[(fname, wl if wl > 0 else 1)][c]
                     rep["expected_stdout"] = ref[1][-600:]
@@ -810,10 +1022,17 @@ def e2e(ctx, objdir):
                         viol(ctx, "e2e-output:" + c, "uftrace %s on a task file (%s) cut at byte %d neither prints what it prints on the "
                              "copy cut at the last whole record (byte %d) nor stops with a diagnostic and a prefix of that output"
                              % (c, fname, n, wl), rep)
-                elif c in CMDS and unterminated(fname, n):
+                elif (c in CMDS or fname == "task.txt") and unterminated(fname, n):
                     k = line_start(fname, n)
                     ref = tcanon[(fname, k, 0)][c]
-                    if rc != 0 and err.strip():
+                    if fname == "task.txt":
+                        # the task list reader skips an unterminated last line (C12_task_txt_prefix): exactly the copy
+                        if (rc, out) != (ref[0], ref[1]):
+                            rep["expected_stdout"] = ref[1][-600:]
+                            rep["expected_rc"] = ref[0]
+                            viol(ctx, "e2e-tasktxt", "uftrace %s with task.txt cut at byte %d (inside a line) does not print what it "
+                                 "prints on the copy cut at the last complete line (byte %d)" % (c, n, k), rep)
+                    elif rc != 0 and err.strip():
                         ctx.tag("e2e:text-rest-rejected")            # diagnostic
                     elif (rc, out) == (ref[0], ref[1]):
                         ctx.tag("e2e:text-rest-ignored-or-invisible")   # as for the copy cut at the last complete line
@@ -837,11 +1056,23 @@ def e2e(ctx, objdir):
 
 # ---------------------------------------------------------------------------------- entry points
 def setup(ctx):
-    coq.prove(ctx, "C12")
-    objdir = build.get_build("asan", ctx.log)
-    harness = os.path.join(ctx.scratch, "c12_harness")
-    build.cc([os.path.join(HERE, "../harness/c/c12_harness.c"), build.uf_archive(objdir)], harness, objdir,
-             extra=["-fsanitize=address,undefined"] + build.UF_LIBS)
+    """proof step (coqc, single-threaded) in a thread while the ASan build is fetched and both harnesses are compiled"""
+    import threading
+    th = threading.Thread(target=coq.prove, args=(ctx, "C12"))
+    th.start()
+    try:
+        objdir = build.get_build("asan", ctx.log)
+        harness = os.path.join(ctx.scratch, "c12_harness")
+        tt = os.path.join(ctx.scratch, "c12_tasktxt")
+
+        def comp(a):
+            build.cc([os.path.join(HERE, "../harness/c/" + a[0]), build.uf_archive(objdir)], a[1], objdir,
+                     extra=["-fsanitize=address,undefined"] + build.UF_LIBS)
+        build.uf_archive(objdir)
+        with ThreadPoolExecutor(2) as ex:
+            list(ex.map(comp, [("c12_harness.c", harness), ("c12_tasktxt.c", tt)]))
+    finally:
+        th.join()
     return objdir, harness
 
 
@@ -895,6 +1126,8 @@ def run(ctx):
     ctx.log("corpus done")
     stream_tie(ctx, objdir, harness)
     ctx.log("stream tie done")
+    tasktxt_tie(ctx, objdir)
+    ctx.log("task list tie done")
     e2e(ctx, objdir)
     ctx.log("e2e done")
 
